@@ -86,7 +86,7 @@ func (c *Ctx) execBlock(s *State, b *ssa.BasicBlock, pred *ssa.BasicBlock, out *
 			}
 			fr.unrollCount[b]++
 			if fr.unrollCount[b] > k+1 {
-				name := fmt.Sprintf("%s/loop%d:unwind<=%d", fnKey(fr.fn), li.ordinal[b], k)
+				name := fmt.Sprintf("%s/loop%d:unwind<=%d", fnKey(fr.fn), c.eng.loopLabel(fr.fn, li.ordinal[b]), k)
 				c.oblige(s, "unwind", name, False, "", "unwinding assertion: the loop iterates at most the stated number of times", c.props)
 				return
 			}
